@@ -82,6 +82,14 @@ func PurgeBuildReverseIndex(stores context2.Stores, opts ...PurgeOption) (*Purge
 		zap.Stringer("blob_store", blob),
 	)
 
+	if !options.resume {
+		// a new index replaces any previous one: chunks of a previous (possibly larger) index must not be
+		// loaded together with the new ones by delete-unused
+		if erd := PurgeDropReverseIndex(stores, opts...); erd != nil {
+			return nil, erd
+		}
+	}
+
 	if options.resume {
 		// reload existing index files into a fresh local KV store
 		lastIndex, numKeys, ts, erp := preloadIndexFiles(ctx, stores, db, logger, options)
